@@ -351,6 +351,79 @@ def run(ctx):
                    f"hash_checksums called from {len(tfiles)} threads at once: {len(tbad)} of {len(tres)} results are not the digests of the file's bytes {terr[:1]}",
                    {"threads": len(tfiles), "names": list(tnames), "wrong": tbad[:6], "sizes": [len(d) for _, d in tfiles], "errors": terr[:3]})
     ctx.cov["overlapping_calls_verified"] = len(tres)
+    # ---- … and the same with every read and every update of the overlapping calls recorded in one global order: the observed
+    # interleaving is a run of M-HASH-CONC (private buffer and hash state per call), and every call fed its hash object, slice by slice,
+    # the chunks of its own file
+    import hashlib as _hl
+    import sedpack.io.utils as _U
+    tlog, tlock, tloc = [], threading.Lock(), threading.local()
+    _orig_get = _U._get_hash_function
+    class _RecH:
+        def __init__(self, inner, first): self.inner, self.first = inner, first
+        def update(self, b):
+            if self.first:
+                d = _hl.md5(bytes(b)).hexdigest()
+                with tlock: tlog.append((tloc.call, "f", d))
+            self.inner.update(b)
+        def digest(self): return self.inner.digest()
+        def hexdigest(self): return self.inner.hexdigest()
+    def _get(name):
+        first = not getattr(tloc, "made", True); tloc.made = True
+        return _RecH(_orig_get(name), first)
+    import builtins as _bi
+    class _F:
+        def __init__(self, *a, **k): self.f = _bi.open(*a, **k)
+        def __enter__(self): return self
+        def __exit__(self, *a): self.f.close()
+        def readinto(self, mv):
+            n = self.f.readinto(mv)
+            if n:
+                d = _hl.md5(bytes(mv[:n])).hexdigest()
+                with tlock: tlog.append((tloc.call, "r", d))
+            tloc.B = len(mv)
+            return n
+        def read(self, *a): return self.f.read(*a)
+    Bseen = {}
+    def traced(k):
+        try:
+            for rep in range(2):
+                tloc.call = (k, rep); tloc.made = False
+                tres2[(k, rep)] = hash_checksums(file_path=tfiles2[k][0], hashes=("sha1", "xxh64"))
+                Bseen[k] = tloc.B
+        except Exception as e:  # noqa: BLE001
+            terr2.append(f"{type(e).__name__}: {e}")
+    tdir2 = ctx.scratch / "c16_traced"; tdir2.mkdir(exist_ok=True)
+    tfiles2 = []
+    for k in range(3):
+        q = tdir2 / f"u{k}.bin"; data = bytes((i * (k + 5) + 3 * k) % 256 for i in range(B0 * (3 + k) + 11 * k + 1)); q.write_bytes(data); tfiles2.append((q, data))
+    tres2, terr2 = {}, []
+    _U._get_hash_function = _get; _U.open = _F
+    try:
+        ths2 = [threading.Thread(target=traced, args=(k,)) for k in range(3)]
+        for t in ths2: t.start()
+        for t in ths2: t.join(120)
+    finally:
+        _U._get_hash_function = _orig_get
+        del _U.open
+    calls = sorted({c for c, _, _ in tlog})
+    cidx = {c: i for i, c in enumerate(calls)}
+    files_model, own_chunks = [], {}
+    for c in calls:
+        data = tfiles2[c[0]][1]; B = Bseen.get(c[0], B0)
+        chunks = [data[o:o + B] for o in range(0, len(data), B)]
+        own_chunks[c] = [_hl.md5(x).hexdigest() for x in chunks]
+        files_model.append([[1000 * cidx[c] + j] for j in range(len(chunks))])
+    rep = lean.driver([{"m": "hashconc", "files": files_model, "sched": [[op, cidx[c]] for c, op, _ in tlog]}])[0] if tlog else {"ok": False, "at": -1}
+    fed = {c: [d for c2, op, d in tlog if c2 == c and op == "f"] for c in calls}
+    wrong = [c for c in calls if fed[c] != own_chunks[c]]
+    if wrong or terr2:
+        ctx.report({"kind": "digest", "site": "overlapping-calls", "what": "fed-slices"},
+                   f"three threads hashing at once, every read and update recorded: call {wrong[:1] or terr2[:1]} fed its hash object slices that are not the chunks of its own file, in order", {"calls": [list(c) for c in calls], "wrong": [list(c) for c in wrong], "errors": terr2[:2]})
+    elif not rep.get("ok") or rep.get("acc") != [[1000 * i + j for j in range(len(files_model[i]))] for i in range(len(calls))] or not all(rep.get("finished", [])):
+        ctx.cov.setdefault("correspondence_mismatch", []).append({"case": "overlapping calls", "impl": [[op, cidx[c]] for c, op, _ in tlog][:30], "model": rep})
+    interleaved = sum(1 for (a, _, _), (b, _, _) in zip(tlog, tlog[1:]) if a != b)
+    ctx.cov["overlapping_calls_replayed_on_M_HASH_CONC"] = len(calls); ctx.cov["recorded_read_and_update_steps"] = len(tlog); ctx.cov["switches_between_calls_in_the_recorded_order"] = interleaved
+    shutil.rmtree(tdir2, ignore_errors=True)
     shutil.rmtree(tdir, ignore_errors=True)
     mism = ctx.cov.get("correspondence_mismatch")
     if mism and not ctx.violations:
